@@ -175,7 +175,11 @@ let dd_of_table f (tb : z list) : dd =
   of_fun (szf f) f.rule (nat_of_int (nlev f)) O (fun y -> arr.(tab_index f y)) (fun _ -> O)
 (* canonical EV+ diagram of a table (fully- and quasi-reduced forests): EvDD.ev_of_fun,
    proved canonical in EvP.ev_canon; printed like the implementation's dump *)
-let ev_dump_str f (tb : int list) : string =
+let rec ev_paths = function
+  | EO -> 1
+  | EN (_, vs, cs) ->
+    List.fold_left2 (fun acc v c -> match v with None -> acc | Some _ -> acc + ev_paths c) 0 vs cs
+let ev_dump_str ?(cards = false) f (tb : int list) : string =
   let arr = Array.of_list tb in
   let g y = let v = arr.(tab_index f y) in if v >= inf then None else Some (z_of_int v) in
   let (rv, rt) = ev_of_fun (szf f) (f.rule = FR) (nat_of_int (nlev f)) g (fun _ -> O) in
@@ -196,7 +200,9 @@ let ev_dump_str f (tb : int list) : string =
          let me = !next in
          incr next;
          Hashtbl.add ids t me;
-         Buffer.add_string body (Printf.sprintf " n%d=L%d[%s]" me (mlevel f (int_of_nat k)) (Stdlib.String.concat " " rs));
+         (* index sets: every node stores the number of members below it *)
+         let card = if cards then Printf.sprintf "#%d" (ev_paths t) else "" in
+         Buffer.add_string body (Printf.sprintf " n%d=L%d%s[%s]" me (mlevel f (int_of_nat k)) card (Stdlib.String.concat " " rs));
          me
        | EO -> 0)
   in
@@ -1298,8 +1304,14 @@ let rec run toks =
     let l = nat_of_int (nlev fa) in
     let tb = index_table (szf fa) fa.rule l ta in
     Hashtbl.replace idxsets r (fan, ta);
-    emit (Printf.sprintf "%s tab=%s" r (Stdlib.String.concat "," (List.map (function
-        | Some i -> string_of_int (int_of_nat i) | None -> "inf") tb)))
+    let dump =
+      match Hashtbl.find_opt fors fn with
+      | Some fi when fi.lab = IDX && fi.rule <> IR && not fi.rel ->
+        " dump=" ^ ev_dump_str ~cards:true fi
+          (List.map (function Some i -> int_of_nat i | None -> inf) tb)
+      | _ -> "" in
+    emit (Printf.sprintf "%s tab=%s%s" r (Stdlib.String.concat "," (List.map (function
+        | Some i -> string_of_int (int_of_nat i) | None -> "inf") tb)) dump)
   | "lvl" :: k1 :: k2 :: _ ->
     (* the generated Gen/Levels.v definitions, run on the same inputs as the C++ functions *)
     let a = z_of_int (int_of_string k1) and b = z_of_int (int_of_string k2) in
